@@ -28,6 +28,9 @@ func init() {
 type GTime struct {
 	Seconds int64   `json:"seconds"`
 	Nanos   *uint32 `json:"nanos,omitempty"`
+	// set only when the library reports a value outside the field's uint32 range (never by the reference side),
+	// so that a narrowing conversion here cannot hide a sign or width error
+	NanosRaw *int64 `json:"nanos_out_of_range,omitempty"`
 }
 type GMsg struct {
 	Type       int64    `json:"type"`
@@ -37,6 +40,7 @@ type GMsg struct {
 	HashType   *uint64  `json:"hashtype,omitempty"`
 	Fanout     *uint64  `json:"fanout,omitempty"`
 	Mode       *uint32  `json:"mode,omitempty"`
+	ModeRaw    *int64   `json:"mode_out_of_range,omitempty"` // see GTime.NanosRaw
 	Mtime      *GTime   `json:"mtime,omitempty"`
 }
 
@@ -345,15 +349,23 @@ func msgOfNode(n data.UnixFSData) *GMsg {
 		m.Fanout = &v
 	}
 	if n.FieldMode().Exists() {
-		v := uint32(n.FieldMode().Must().Int())
+		raw := n.FieldMode().Must().Int()
+		v := uint32(raw)
 		m.Mode = &v
+		if raw < 0 || raw > 4294967295 {
+			m.ModeRaw = &raw
+		}
 	}
 	if n.FieldMtime().Exists() {
 		t := n.FieldMtime().Must()
 		g := &GTime{Seconds: t.FieldSeconds().Int()}
 		if t.FieldFractionalNanoseconds().Exists() {
-			v := uint32(t.FieldFractionalNanoseconds().Must().Int())
+			raw := t.FieldFractionalNanoseconds().Must().Int()
+			v := uint32(raw)
 			g.Nanos = &v
+			if raw < 0 || raw > 4294967295 {
+				g.NanosRaw = &raw
+			}
 		}
 		m.Mtime = g
 	}
@@ -483,8 +495,12 @@ func runCodecCase(in CodecInput) (obs CodecObs, fails []Failure) {
 		if obs.Outcome.Class == "ok" {
 			g := &GTime{Seconds: nd.FieldSeconds().Int()}
 			if nd.FieldFractionalNanoseconds().Exists() {
-				v := uint32(nd.FieldFractionalNanoseconds().Must().Int())
+				raw := nd.FieldFractionalNanoseconds().Must().Int()
+				v := uint32(raw)
 				g.Nanos = &v
+				if raw < 0 || raw > 4294967295 {
+					g.NanosRaw = &raw
+				}
 			}
 			obs.Msg = &GMsg{Mtime: g}
 			obs.Reenc = data.AppendEncodeUnixTime(nil, nd)
@@ -503,7 +519,7 @@ func runCodecCase(in CodecInput) (obs CodecObs, fails []Failure) {
 				return
 			}
 			g := obs.Msg.Mtime
-			if g.Seconds != ref.GetSeconds() || (g.Nanos == nil) != (ref.Nanos == nil) || (g.Nanos != nil && *g.Nanos != ref.GetNanos()) {
+			if g.Seconds != ref.GetSeconds() || (g.Nanos == nil) != (ref.Nanos == nil) || (g.Nanos != nil && *g.Nanos != ref.GetNanos()) || g.NanosRaw != nil {
 				fail("C09", "decode-differs-time", "decoded timestamp differs from the reference decoder's", fmt.Sprint(ref.GetSeconds(), ref.Nanos), fmt.Sprint(g.Seconds, g.Nanos))
 			}
 		}
